@@ -57,6 +57,10 @@ def contracts():
         ('PathDeleteError<=PathAssignError', 'issubclass(PathDeleteError, PathAssignError)', lambda f: f.issub('mutation.PathDeleteError', 'core.PathAssignError')),
     ], func='exception class statements'))
     cs.append(Equiv('matching.TypeMatchError.__copy__', 'ref_core.tme_copy_ref', args={'self': 'inst:matching.TypeMatchError'}, requires=['len(self.args) == 3']))
+    # "with the same args": the copy that leaves glom() has the args of the original, for the one GlomError class with its own __copy__
+    cs.append(Post('matching.TypeMatchError.__copy__', label='matching.TypeMatchError.__copy__[args]', cases=[
+        Case('any', args={'self': 'inst:matching.TypeMatchError'}, requires=['len(self.args) == 3'],
+             ensures=['type(result) is TypeMatchError', 'len(result.args) == 3', 'result.args[1] is self.args[1]', 'result.args[2] is self.args[2]'])]))
     return cs
 
 
